@@ -7,7 +7,7 @@ from fractions import Fraction
 
 from .. import bits as B, codec, lengths as LN
 from ..model import AnalysisError, StructVal, dotted, norm_text, unparse, walk_no_nested
-from ..q import NONEXC, Fn, ctor_fields, same_relation
+from ..q import NONEXC, Fn, bind_call, ctor_fields, same_relation
 from . import c05, c13
 from .c04 import layout
 
@@ -120,6 +120,16 @@ def _paths(ctx, m, ci, meth, union):
 def _self_consistent(c):
     s = set(c)
     return not any(("not " + x) in s for x in s if not x.startswith("not "))
+
+
+class _Slots(ast.NodeTransformer):
+    """`_STRUCT.unpack_from(buf)[k]` -> the name Uk (the k-th unpacked slot, whatever local holds it)"""
+
+    def visit_Subscript(self, n):
+        self.generic_visit(n)
+        if isinstance(n.value, ast.Call) and (dotted(n.value.func) or "").endswith("_STRUCT.unpack_from") and isinstance(n.slice, ast.Constant) and isinstance(n.slice.value, int):
+            return ast.copy_location(ast.Name(id=f"U{n.slice.value}", ctx=ast.Load()), n)
+        return n
 
 
 def r1(ctx):
@@ -357,10 +367,15 @@ def r2(ctx):
     g = dec.cfg
     rets = [n for n in g.nodes if n.kind == "stmt" and isinstance(n.ast, ast.Return)]
     checks = {"data_length_1 != data_length_2": False, "data_length_1 != _INTERNAL_HEADER_LENGTH + message_length + CRC_LENGTH": False, "outer_prefix != _OUTER_HEADER_PREFIX": False, "inner_prefix != _INNER_HEADER_PREFIX": False}
+    # the relations are stated over the unpacked slots (U0 = outer prefix, U1/U2 = the two data lengths, U3 = inner prefix, U8 = message
+    # length), whatever the locals holding them are called
+    slot_form = {"data_length_1 != data_length_2": "U1 != U2", "data_length_1 != _INTERNAL_HEADER_LENGTH + message_length + CRC_LENGTH": "U1 != _INTERNAL_HEADER_LENGTH + U8 + CRC_LENGTH", "outer_prefix != _OUTER_HEADER_PREFIX": "U0 != _OUTER_HEADER_PREFIX", "inner_prefix != _INNER_HEADER_PREFIX": "U3 != _INNER_HEADER_PREFIX"}
+    ctx.require(len(st.slots) == 9, f"{hm.relpath}: the AT5 header struct no longer has 9 fields")
+
     for t in dec.tests(lambda e: isinstance(e, ast.Compare)):
-        te = dec.expand(t.ast, t)
+        te = _Slots().visit(dec.expand(t.ast, t))
         for k in checks:
-            if same_relation(ctx.repo, hm, te, ast.parse(k, mode="eval").body):
+            if same_relation(ctx.repo, hm, te, ast.parse(slot_form[k], mode="eval").body):
                 tb = dec.branch(t, "true")
                 reach = g.reachable(tb.id, labels=NONEXC)
                 raises = any(g.nodes[i].kind == "stmt" and isinstance(g.nodes[i].ast, ast.Raise) and "DecodeError" in unparse(g.nodes[i].ast) for i in reach)
@@ -373,7 +388,7 @@ def r2(ctx):
     ctx.fn(h4, "HeaderDecoder.decode")
     ok = False
     for t in d4.tests(lambda e: isinstance(e, ast.Compare)):
-        if same_relation(ctx.repo, h4, d4.expand(t.ast, t), ast.parse("prefix != _PREFIX", mode="eval").body):
+        if same_relation(ctx.repo, h4, _Slots().visit(d4.expand(t.ast, t)), ast.parse("U0 != _PREFIX", mode="eval").body):
             reach = d4.cfg.reachable(d4.branch(t, "true").id, labels=NONEXC)
             ok = d4.cfg.exit.id not in reach
     ctx.check(ok, R, "at4:HeaderDecoder:rejects[prefix != _PREFIX]", h4, d4.node, "a wrong prefix raises DecodeError", "prefix not checked")
@@ -478,7 +493,8 @@ def r3(ctx):
         ctx.analysed["functions"].add(f"{m.name}.{dcls}.decode")
         ctx.analysed["functions"].add(f"{m.name}.{ecls}.encode")
         smap = c05.slot_map(notes)
-        ctx.check(st is not None and st.fmt == packed.struct.fmt, R, f"{lab}:same-struct", m, dnode, f"encoder and decoder use the same record layout ({packed.struct.fmt})", st.fmt if st else "?")
+        same = st is not None and (st.fmt == packed.struct.fmt or (st.size == packed.struct.size and [(x.offset, x.size, x.code) for x in st.slots] == [(x.offset, x.size, x.code) for x in packed.struct.slots]))
+        ctx.check(same, R, f"{lab}:same-struct", m, dnode, f"encoder and decoder use the same record layout ({packed.struct.fmt})", st.fmt if st else "?")
         opaque_fields = {f for (mo, f) in OPAQUE_OK if mo == mod}
         overlap = [p for p in eprob if "overlapping bit fields" in p]
         if overlap:
@@ -599,7 +615,7 @@ def r5(ctx):
 
         top = []
         for call in [c for c in ast.walk(rm.tree) if isinstance(c, ast.Call) and dotted(c.func) == "INSTANCE.register"]:
-            kw = {k.arg: k.value for k in call.keywords}
+            kw = bind_call(ctx.repo, rm, call)
             top.append((kw.get("message_id"), kw.get("encoder"), kw.get("decoder"), call))
         maps = {}
         for name, expr in rm.assigns.items():
